@@ -186,6 +186,46 @@ def run(model, rep, tier):
                     else:
                         rep.blind("R-07.2", con, where(init, n.ast), f"self.{t.attr}: cannot classify `{src(n.ast.value)[:50]}` ({why})", stmt=st)
     rep.floor("R-07.2", n_fields, 150)
+    # fields copied from a helper object (`tuple(helper.attr)`): tuple() freezes the outer level only, so the helper itself must have built that
+    # attribute (own sequence of tuple/immutable elements), not kept the caller's container - whose elements may be lists, or which may be a
+    # one-shot iterable that the helper's validation loop exhausts
+    n_helper = 0
+    for ci in value_classes:
+        init = ci.methods.get("__init__")
+        if init is None or not _is_immutable_class(model, ci):
+            continue
+        for n in ast.walk(init.node):
+            if not (isinstance(n, ast.Assign) and isinstance(n.value, ast.Call) and src(n.value.func) in ("tuple", "frozenset") and len(n.value.args) == 1):
+                continue
+            a = n.value.args[0]
+            if not (isinstance(a, ast.Attribute) and isinstance(a.value, ast.Name)):
+                continue
+            holder = a.value.id
+            hcls = None
+            for c in ast.walk(init.node):
+                if isinstance(c, ast.Call) and src(c.func) == "isinstance" and len(c.args) == 2 and src(c.args[0]) == holder:
+                    hcls = model.classes.get(model.resolve_expr(init, c.args[1]))
+                elif isinstance(c, ast.Assign) and any(src(t_) == holder for t_ in c.targets) and isinstance(c.value, ast.Call):
+                    hcls = model.classes.get(model.resolve_expr(init, c.value.func)) or hcls
+            if hcls is None:
+                rep.blind("R-07.2", init.qualname, where(init, n), f"`{src(n.value)}`: class of `{holder}` not identified", stmt=f"helper-elements {a.attr}")
+                continue
+            hinit = next((k.methods["__init__"] for k in hcls.mro if hasattr(k, "methods") and "__init__" in k.methods), None)
+            stores = [x for x in ast.walk(hinit.node) if isinstance(x, ast.Assign) and any(src(t_) == "self." + a.attr for t_ in x.targets)] if hinit else []
+            if not stores:
+                rep.blind("R-07.2", init.qualname, where(init, n), f"`{hcls.name}.__init__` does not assign self.{a.attr}", stmt=f"helper-elements {a.attr}")
+                continue
+            n_helper += 1
+            for st_ in stores:
+                v = st_.value
+                own = isinstance(v, (ast.ListComp, ast.GeneratorExp)) or (isinstance(v, ast.Call) and src(v.func) in ("tuple", "list") and v.args and isinstance(v.args[0], (ast.ListComp, ast.GeneratorExp)))
+                comp = v if isinstance(v, (ast.ListComp, ast.GeneratorExp)) else (v.args[0] if own else None)
+                elt_ok = comp is not None and (isinstance(comp.elt, ast.Tuple) or (isinstance(comp.elt, ast.Call) and (src(comp.elt.func) in IMMUTABLE_CALLS or src(comp.elt.func).split(".")[-1].startswith("_as_"))))
+                rep.check(own and elt_ok, "R-07.2", hinit.qualname, where(hinit, st_), f"self.{a.attr} is a sequence {hcls.name} builds itself, of tuple/immutable elements",
+                          f"`{src(st_)[:60]}`: {hcls.name} keeps the caller's container, and {init.qualname} freezes only its outer level with `{src(n.value)}`: "
+                          "element pairs given as lists stay mutable inside the immutable record (its text, wire form, hash and equality change when they are mutated), "
+                          "and a one-shot iterable is exhausted by the validation loop so the record is built empty", stmt=f"helper-elements {a.attr}")
+    rep.floor("R-07.2-helper-elements", n_helper, 3)
     # the validators return immutable kinds: _as_bytes returns bytes even for bytearray
     ab = model.func("dns.rdata.Rdata._as_bytes")
     t = src(ab.node)
@@ -398,6 +438,10 @@ def run(model, rep, tier):
 
 
 WITNESSES = [
+    {"id": "c07-bitmap-keeps-callers-windows", "rule": "R-07.2", "file": "dns/rdtypes/util.py", "expect": "fires",
+     "old": "        self.windows = [(window, bitmap) for window, bitmap in windows]\n", "new": "        self.windows = windows\n"},
+    {"id": "c07-twin-bitmap-tuple-of-pairs", "rule": "R-07.2", "file": "dns/rdtypes/util.py", "expect": "silent",
+     "old": "        self.windows = [(window, bitmap) for window, bitmap in windows]\n", "new": "        self.windows = tuple((w, b) for w, b in windows)\n"},
     {"id": "c07-immutable-rdataset-no-copy", "rule": "R-07.8", "file": "dns/rdataset.py", "expect": "fires",
      "old": "        self.items = dns.immutable.Dict(rdataset.items)", "new": "        self.items = dns.immutable.Dict(rdataset.items, True)"},
     {"id": "c07-covers-adopted-when-empty", "rule": "R-07.6", "file": "dns/rdataset.py", "expect": "fires",
